@@ -20,7 +20,7 @@ From Coq Require Import Lia ZifyBool ZifyNat.
 Open Scope Z_scope.
 """
 TACTIC = """Ltac kernel :=
-  intros; cbv beta delta [%(unfold)s] ;
+  intros; cbv beta delta [%(unfold)s] ; %(cbn)s
   repeat (match goal with
           | |- context [match ?o with Some _ => _ | None => _ end] => destruct o eqn:?
           | |- context [if ?b then _ else _] => destruct b eqn:?
@@ -269,6 +269,11 @@ class Tr:
 def find_function(path, cls, fn):
     with open(path) as f:
         tree = ast.parse(f.read())
+    if cls is None:
+        for n in tree.body:
+            if isinstance(n, ast.FunctionDef) and n.name == fn:
+                return n
+        raise Untranslatable(f"function {fn} not found")
     for n in ast.walk(tree):
         if isinstance(n, ast.ClassDef) and n.name == cls:
             for b in n.body:
@@ -293,12 +298,94 @@ def translate(k):
                 start = "[" + "; ".join(tr.num(e) for e in call.keywords[0].value.elts) + "]"
                 return f"({nvec}, {start})"
         raise Untranslatable("assignment to " + k["assign_target"] + " not found")
+    if "pick" in k:
+        return translate_picked(fn, k)
     tr = Tr(k["leaves"], k.get("expected"))
     out = tr.body(fn.body, k.get("outputs"))
     missing = set(tr.expected) - tr.seen_expected
     if missing:
         raise Untranslatable("expected local(s) not assigned: " + ", ".join(sorted(missing)))
     return out
+
+
+def _unique(nodes, what):
+    if len(nodes) != 1:
+        raise Untranslatable(f"{what}: {len(nodes)} matching statements (exactly one expected)")
+    return nodes[0]
+
+
+def translate_picked(fn, k):
+    """Kernels that are ONE decision inside a loop: the steps pick, anywhere in the function body, the unique
+    assignment to a local (`assign`), the unique store into a subscript (`store`) or the test of the unique `if`
+    that guards a given statement (`guard_of`); the last step's expression is the kernel."""
+    tr = Tr(k["leaves"])
+    result = None
+    for kind, what in k["pick"]:
+        if kind == "assign":
+            st = _unique([n for n in ast.walk(fn) if isinstance(n, ast.Assign) and len(n.targets) == 1
+                          and isinstance(n.targets[0], ast.Name) and n.targets[0].id == what], "assignment to " + what)
+            result = tr.expr(st.value)
+            tr.locals[what] = result
+        elif kind == "store":
+            st = _unique([n for n in ast.walk(fn) if isinstance(n, ast.Assign) and len(n.targets) == 1
+                          and ast.unparse(n.targets[0]) == what], "store into " + what)
+            result = tr.expr(st.value)
+        elif kind == "guard_of":
+            st = _unique([n for n in ast.walk(fn) if isinstance(n, ast.If) and not n.orelse
+                          and any(ast.unparse(b) == what for b in n.body)], "if guarding `" + what + "`")
+            if k.get("sole_body", True) and len(st.body) != 1:
+                raise Untranslatable("the guarded block does more than `" + what + "`")
+            result = tr.expr(st.test)
+        else:
+            raise Untranslatable("unknown pick kind " + kind)
+    return result[0]
+
+
+_F = "job_shop_lib/dispatching/_ready_operation_filters.py"
+KERNELS += [
+    dict(name="dominated_test", file=_F, cls=None, fn="filter_dominated_operations", params="(st e : Z)", args="st e",
+         rtype="bool", pick=[("assign", "is_dominated"), ("guard_of", "non_dominated_operations.append(operation)")],
+         sole_body=False,
+         leaves={"start_time": ("st", "Z"), "min_machine_end_times[machine_id]": ("e", "Z")},
+         quant="(I : instance) (d : dstate) (L : list (nat * nat)) (k : nat * nat) (m : nat)",
+         call="match min_end_on I d L m with None => true | Some e => gen_k (start_time d (fst k) m) e end",
+         model="not_dominated_on I d L k m", unfold="not_dominated_on", props=["C07", "C08", "C06"]),
+    dict(name="zero_duration_shortcut", file=_F, cls=None, fn="filter_dominated_operations", params="(du : Z)",
+         args="du", rtype="bool", pick=[("guard_of", "return [operation]")],
+         leaves={"operation.duration": ("du", "Z")},
+         quant="(I : instance) (d : dstate) (L r : list (nat * nat)) (k : nat * nat)",
+         call="(if gen_k (kdur I k) then inr k else match dominated_loop I d L r with inr z => inr z | inl acc => "
+              "if existsb (not_dominated_on I d L k) (kmachines I k) then inl (k :: acc) else inl acc end)",
+         model="dominated_loop I d L (k :: r)", unfold="", cbn="dominated_loop", props=["C07", "C08"]),
+    dict(name="non_idle_completed_test", file=_F, cls=None, fn="_get_non_idle_machines", params="(e t : Z)",
+         args="e t", rtype="bool", pick=[("assign", "is_completed"), ("guard_of", "break")],
+         leaves={"scheduled_operation.end_time": ("e", "Z"), "current_time": ("t", "Z")},
+         quant="(I : instance) (t : Z) (x : sop) (r : list sop)",
+         call="(if gen_k (s_end I x) t then [] else x :: take_while_running I t r)",
+         model="take_while_running I t (x :: r)", unfold="", cbn="take_while_running", props=["C07", "C06", "C05"]),
+    dict(name="immediate_operation_test", file=_F, cls=None, fn="filter_non_immediate_operations",
+         params="(s t : Z)", args="s t", rtype="bool",
+         pick=[("guard_of", "immediate_operations.append(operation)")],
+         leaves={"start_time": ("s", "Z"), "min_start_time": ("t", "Z")},
+         quant="(I : instance) (d : dstate) (L : list (nat * nat))",
+         call="filter (fun k => match kop I k with Some o => match earliest_start_time d (fst k) o with "
+              "Some s => gen_k s (min_start_time I d L) | None => false end | None => false end) L",
+         model="filter_non_immediate_ops I d L", unfold="", props=["C07", "C06"]),
+    dict(name="immediate_machine_test", file=_F, cls=None, fn="_get_immediate_machines", params="(s t : Z)",
+         args="s t", rtype="bool", pick=[("guard_of", "working_machines[machine_id] = True")],
+         leaves={"self.start_time(op, machine_id)": ("s", "Z"), "current_time": ("t", "Z")},
+         quant="(I : instance) (d : dstate) (L : list (nat * nat)) (m : nat)",
+         call="existsb (fun k => mem_nat m (kmachines I k) && gen_k (start_time d (fst k) m) (min_start_time I d L)) L",
+         model="immediate_machine I d L m", unfold="", props=["C07", "C06"]),
+    dict(name="min_machine_end_update", file=_F, cls=None, fn="_get_min_machine_end_times",
+         params="(cur st du : Z)", args="cur st du", rtype="Z",
+         pick=[("store", "end_times_per_machine[machine_id]")],
+         leaves={"end_times_per_machine[machine_id]": ("cur", "Z"), "start_time": ("st", "Z"),
+                 "op.duration": ("du", "Z")},
+         quant="(st du : Z) (l : list Z)",
+         call="Some (match minZ_opt l with None => st + du | Some cur => gen_k cur st du end)",
+         model="minZ_opt ((st + du) :: l)", unfold="", cbn="minZ_opt", props=["C07", "C08"]),
+]
 
 
 def check_kernels(pid):
@@ -337,7 +424,7 @@ def check_kernels(pid):
             if k.get("imports"):
                 text += f"From JSL Require Import {k['imports']}.\n"
             text += f"Definition gen_k {k['params']} : {k['rtype']} := {body}.\n"
-            text += TACTIC % {"unfold": unfold}
+            text += TACTIC % {"unfold": unfold, "cbn": ("cbn [%s];" % k["cbn"]) if k.get("cbn") else ""}
             if k.get("call"):
                 text += f"Lemma gen_k_ok : forall {k['quant']}, {k['call']} = {k['model']}.\nProof. kernel. Qed.\n"
             else:
@@ -506,6 +593,9 @@ class ProgTr(Tr):
                 and isinstance(s.body[0].exc, ast.Call) and ast.unparse(s.body[0].exc.func) in EXN:
             e = EXN[ast.unparse(s.body[0].exc.func)]
             return f"bind (if {self.boolean(s.test)} then raise {e} else ret tt) (fun _ => @K@)"
+        if isinstance(s, ast.If) and not s.orelse and len(s.body) == 1 and isinstance(s.body[0], ast.Return) \
+                and s.body[0].value is None:
+            return f"(if {self.boolean(s.test)} then ret tt else @K@)"
         raise Untranslatable("unsupported statement: " + src[:90])
 
     def program(self, stmts):
@@ -562,6 +652,27 @@ PROGRAMS = [
                 ("bind (update_tracking o_update I x) (fun _ => @K@)", {})},
          model="dispatch o_update I r", unfold="dispatch start_time",
          props=["C01", "C02", "C09", "C10"]),
+    dict(name="prog_schedule_add", file="job_shop_lib/_schedule.py", cls="Schedule", fn="add",
+         params="(I : instance) (x : sop)", args="I x", leaves={},
+         pre=[dict(name="gen_check", file="job_shop_lib/_schedule.py", cls="Schedule",
+                   fn="_check_start_time_of_new_operation", params="(I : instance) (x : sop)",
+                   prologue="bind get (fun w => bind (of_opt (nth_error (sched (core w)) (s_mach x)) EIndex) "
+                            "(fun row => @K@))",
+                   leaves={"self._is_valid_start_time(new_operation, last_operation)":
+                           ("(s_end I y <=? s_start x)", "bool")},
+                   calls={"is_first_operation = not self.schedule[new_operation.machine_id]":
+                          ("let v_is_first_operation := match last_opt row with None => true | Some _ => false end "
+                           "in @K@", {"is_first_operation": "bool"}),
+                          "last_operation = self.schedule[new_operation.machine_id][-1]":
+                          ("bind (of_opt (last_opt row) EIndex) (fun y => @K@)", {})})],
+         calls={"self._check_start_time_of_new_operation(scheduled_operation)":
+                ("bind (gen_check I x) (fun _ => @K@)", {}),
+                "self.schedule[scheduled_operation.machine_id].append(scheduled_operation)":
+                ("bind get (fun w => bind (of_opt (nth_error (sched (core w)) (s_mach x)) EIndex) (fun row => "
+                 "bind (set_core (fun d => mkd (mfree d) (jnext d) (jfree d) (upd (sched d) (s_mach x) (row ++ [x])))) "
+                 "(fun _ => @K@)))", {})},
+         model="schedule_add I x", unfold="schedule_add gen_check",
+         props=["C01", "C09"]),
     dict(name="prog_schedule_reset", file="job_shop_lib/_schedule.py", cls="Schedule", fn="reset",
          params="(I : instance)", args="I", leaves={},
          calls={"self.schedule = [[] for _ in range(self.instance.num_machines)]":
@@ -578,11 +689,21 @@ def translate_program(k):
     body = tr.program(fn.body)
     if k.get("prologue"):
         body = k["prologue"].replace("@K@", body)
-    return body
+    pre = ""
+    for sub in k.get("pre", []):            # helper methods the program calls: translated first, same rules
+        fn2 = find_function(os.path.join(common.REPO, sub["file"]), sub["cls"], sub["fn"])
+        b2 = ProgTr(sub).program(fn2.body)
+        if sub.get("prologue"):
+            b2 = sub["prologue"].replace("@K@", b2)
+        pre += f"Definition {sub['name']} {sub['params']} : M O unit := {b2}.\n"
+    return pre + "@@" + body if pre else body
 
 
 def program_text(k, body):
     text = PROG_HEADER
+    if "@@" in body:
+        pre, body = body.split("@@", 1)
+        text += pre
     text += f"Definition gen_p {k['params']} : M O unit := {body}.\n"
     text += PROG_TACTIC % {"unfold": ("gen_p " + k["unfold"]).strip()}
     text += f"Lemma gen_p_ok : forall {k['args']} (w : world O), gen_p {k['args']} w = ({k['model']}) w.\n"
